@@ -1,0 +1,208 @@
+//go:build verif
+
+// Package verifhook marks the filesystem steps of plugin installation for the crash-safety check in /verif.
+//
+// Each function is called immediately before the os / archiver call it describes and splits that call into the
+// elementary steps the model in /verif uses (unlink, mkdir, create, write, rename). Every step is appended to the
+// file named by VERIF_CRASH_LOG as `<name>#<i> <kind> <path> <path2> <length>` (paths relative to VERIF_CRASH_BASE).
+// If VERIF_CRASH_AT is `<name>#<i>` the process performs steps 0..i-1 of that call itself and exits with status 97
+// before step i; with `<name>#<i>:<n>` and step i being a write, the first n bytes are written before exiting.
+package verifhook
+
+import (
+	"archive/tar"
+	"compress/gzip"
+	"fmt"
+	"io"
+	"os"
+	"path/filepath"
+	"sort"
+	"strconv"
+	"strings"
+)
+
+type step struct {
+	kind       string // unlink | mkdir | create | write | rename
+	path, dest string
+	length     int
+	do         func(torn int) // performs the step (torn >= 0: only that many bytes of a write)
+}
+
+func rel(path string) string {
+	if path == "" {
+		return "-"
+	}
+	base := os.Getenv("VERIF_CRASH_BASE")
+	if r, err := filepath.Rel(base, path); err == nil && base != "" {
+		return filepath.ToSlash(r)
+	}
+	return filepath.ToSlash(path)
+}
+
+func run(name string, steps []step) {
+	if logPath := os.Getenv("VERIF_CRASH_LOG"); logPath != "" {
+		if f, err := os.OpenFile(logPath, os.O_APPEND|os.O_CREATE|os.O_WRONLY, 0o644); err == nil {
+			for i, s := range steps {
+				fmt.Fprintf(f, "%s#%d %s %s %s %d\n", name, i, s.kind, rel(s.path), rel(s.dest), s.length)
+			}
+			f.Close()
+		}
+	}
+	at := os.Getenv("VERIF_CRASH_AT")
+	if !strings.HasPrefix(at, name+"#") {
+		return
+	}
+	spec := strings.TrimPrefix(at, name+"#")
+	torn := -1
+	if k := strings.Index(spec, ":"); k >= 0 {
+		torn, _ = strconv.Atoi(spec[k+1:])
+		spec = spec[:k]
+	}
+	idx, err := strconv.Atoi(spec)
+	if err != nil || idx < 0 || idx >= len(steps) {
+		return
+	}
+	for i := 0; i < idx; i++ {
+		steps[i].do(-1)
+	}
+	if torn >= 0 && steps[idx].kind == "write" {
+		steps[idx].do(torn)
+	}
+	os.Exit(97)
+}
+
+// entries below path (and path itself), children before their parents
+func removalOrder(path string) []string {
+	var all []string
+	filepath.Walk(path, func(p string, info os.FileInfo, err error) error {
+		if err == nil {
+			all = append(all, p)
+		}
+		return nil
+	})
+	key := func(p string) string { return strings.ReplaceAll(filepath.ToSlash(p), "/", "\x00") }
+	sort.Slice(all, func(i, j int) bool { return key(all[i]) > key(all[j]) })
+	return all
+}
+
+func RemoveAll(name, path string) {
+	var steps []step
+	for _, p := range removalOrder(path) {
+		p := p
+		steps = append(steps, step{kind: "unlink", path: p, do: func(int) { os.Remove(p) }})
+	}
+	run(name, steps)
+}
+
+func MkdirAll(name, path string) {
+	base := os.Getenv("VERIF_CRASH_BASE")
+	r, err := filepath.Rel(base, path)
+	if err != nil || base == "" || strings.HasPrefix(r, "..") {
+		run(name, []step{{kind: "mkdir", path: path, do: func(int) { os.MkdirAll(path, os.ModePerm) }}})
+		return
+	}
+	var steps []step
+	cur := base
+	for _, c := range strings.Split(filepath.ToSlash(r), "/") {
+		cur = filepath.Join(cur, c)
+		p := cur
+		steps = append(steps, step{kind: "mkdir", path: p, do: func(int) { os.Mkdir(p, os.ModePerm) }})
+	}
+	run(name, steps)
+}
+
+func Create(name, path string) {
+	run(name, []step{{kind: "create", path: path, do: func(int) {
+		if f, err := os.Create(path); err == nil {
+			f.Close()
+		}
+	}}})
+}
+
+// Copy: the length is not known before the source is read, it is logged as -1.
+func Copy(name string, dst *os.File, src io.Reader) {
+	run(name, []step{{kind: "write", path: dst.Name(), length: -1, do: func(torn int) {
+		if torn >= 0 {
+			io.CopyN(dst, src, int64(torn))
+			dst.Sync()
+		} else {
+			io.Copy(dst, src)
+		}
+	}}})
+}
+
+func Unarchive(name, archive, destination string) {
+	type member struct {
+		name string
+		mode os.FileMode
+		data []byte
+	}
+	var members []member
+	if f, err := os.Open(archive); err == nil {
+		if gz, err := gzip.NewReader(f); err == nil {
+			tr := tar.NewReader(gz)
+			for {
+				h, err := tr.Next()
+				if err != nil {
+					break
+				}
+				if h.Typeflag != tar.TypeReg {
+					continue
+				}
+				data, _ := io.ReadAll(tr)
+				members = append(members, member{name: h.Name, mode: os.FileMode(h.Mode), data: data})
+			}
+		}
+		f.Close()
+	}
+	var steps []step
+	for _, m := range members {
+		m := m
+		p := filepath.Join(destination, m.name)
+		steps = append(steps,
+			step{kind: "create", path: p, do: func(int) {
+				if f, err := os.OpenFile(p, os.O_CREATE|os.O_TRUNC|os.O_WRONLY, m.mode); err == nil {
+					f.Close()
+				}
+			}},
+			step{kind: "write", path: p, length: len(m.data), do: func(torn int) {
+				data := m.data
+				if torn >= 0 && torn < len(data) {
+					data = data[:torn]
+				}
+				if f, err := os.OpenFile(p, os.O_APPEND|os.O_WRONLY, m.mode); err == nil {
+					f.Write(data)
+					f.Close()
+				}
+			}})
+	}
+	run(name, steps)
+}
+
+func Remove(name, path string) {
+	run(name, []step{{kind: "unlink", path: path, do: func(int) { os.Remove(path) }}})
+}
+
+func Rename(name, oldPath, newPath string) {
+	run(name, []step{{kind: "rename", path: oldPath, dest: newPath, do: func(int) { os.Rename(oldPath, newPath) }}})
+}
+
+func WriteFile(name, path string, data []byte) {
+	run(name, []step{
+		{kind: "create", path: path, do: func(int) {
+			if f, err := os.OpenFile(path, os.O_CREATE|os.O_TRUNC|os.O_WRONLY, 0o644); err == nil {
+				f.Close()
+			}
+		}},
+		{kind: "write", path: path, length: len(data), do: func(torn int) {
+			d := data
+			if torn >= 0 && torn < len(d) {
+				d = d[:torn]
+			}
+			if f, err := os.OpenFile(path, os.O_APPEND|os.O_WRONLY, 0o644); err == nil {
+				f.Write(d)
+				f.Close()
+			}
+		}},
+	})
+}
